@@ -849,6 +849,10 @@ func ite[T any](c bool, a, b T) T {
 // under contract (a ghost predicate; it has no run-time observer).
 func verif_fresh(p any) bool { return true }
 
+// verif_freshslice(s): the backing array of s was allocated during the current
+// execution of the function under contract (ghost; no run-time observer).
+func verif_freshslice[T any](s []T) bool { return true }
+
 // verif_all(f): f holds of every value of its parameter type (a specification-only
 // quantifier; it has no run-time observer).
 func verif_all[T any](f func(T) bool) bool { verif_ghostUsed = true; return true }
